@@ -170,7 +170,8 @@ func (dr DateRange) IsAfter(dr2 DateRange) bool {
 }
 
 var dateRangeRegexp = regexp.MustCompile(
-	fmt.Sprintf(`(?i)^(%s) (.+) (%s) (.+)$`, DateWordsBetween, DateWordsAnd))
+	fmt.Sprintf(`(?i)^(%s) (.+) (%s) (.+)$`,
+		dateWordsPattern(DateWordsBetween), dateWordsPattern(DateWordsAnd)))
 
 // Years works in a similar way to Date.Years() but also takes into
 // consideration the StartDate() and EndDate() values of a whole date range,
